@@ -171,6 +171,84 @@ theorem group_unknown_rejected (keyOf : String → Except Err String) (d : DS) (
       exact hnew p.2 (by rw [← this]; exact hp)
     simp [this]
 
+/-! ### Split -/
+
+theorem addPairs_spec (old : String) : ∀ (ps : List (String × Val)) (m m' : List (String × String × Val)),
+    addPairs old ps m = .ok m' → (m.map (·.1)).Nodup →
+      m' = m ++ ps.map (fun p => (p.1, old, p.2)) ∧ (m'.map (·.1)).Nodup
+  | [], m, m', h, hn => by
+    simp only [addPairs] at h; injection h with h; subst h; simp [hn]
+  | (new, part) :: rest, m, m', h, hn => by
+    simp only [addPairs] at h
+    split at h
+    · simp at h
+    · next hany =>
+      have hnew : new ∉ m.map (·.1) := by
+        intro hm
+        apply hany
+        simp only [List.mem_map] at hm
+        obtain ⟨q, hq, rfl⟩ := hm
+        simp only [List.any_eq_true]
+        exact ⟨q, hq, by simp⟩
+      have hn' : ((m ++ [(new, old, part)]).map (·.1)).Nodup := by
+        simp only [List.map_append, List.map_cons, List.map_nil]
+        rw [List.nodup_append]
+        refine ⟨hn, by simp, ?_⟩
+        intro a ha b hb
+        simp only [List.mem_singleton] at hb; subst hb
+        intro hab; subst hab; exact hnew ha
+      obtain ⟨h1, h2⟩ := addPairs_spec old rest _ m' h hn'
+      exact ⟨by simp [h1, List.append_assoc], h2⟩
+
+/-- **Exact expansion.**  When Split's mapping is built without error: new ids are pairwise different; every entry
+`new ↦ (old, part)` was produced by `__split__` on the old entry `old`; and every `(new, part)` that `__split__` produces
+for an old id is in the mapping - each exactly once. -/
+theorem split_expansion (splitOf : String → Except Err (List (String × Val))) :
+    ∀ (ids : List String) (m0 m : List (String × String × Val)), splitMapping splitOf ids m0 = .ok m → (m0.map (·.1)).Nodup →
+      (m.map (·.1)).Nodup ∧
+      (∀ e ∈ m, e ∈ m0 ∨ (e.2.1 ∈ ids ∧ ∃ ps, splitOf e.2.1 = .ok ps ∧ (e.1, e.2.2) ∈ ps)) ∧
+      (∀ e ∈ m0, e ∈ m) ∧
+      (∀ old ∈ ids, ∀ ps, splitOf old = .ok ps → ∀ p ∈ ps, (p.1, old, p.2) ∈ m)
+  | [], m0, m, h, hn => by
+    simp only [splitMapping] at h; injection h with h; subst h
+    exact ⟨hn, fun e he => .inl he, fun e he => he, fun old ho => by cases ho⟩
+  | old :: rest, m0, m, h, hn => by
+    simp only [splitMapping, bind, Except.bind] at h
+    cases hs : splitOf old with
+    | error e => simp [hs] at h
+    | ok pairs =>
+      cases ha : addPairs old pairs m0 with
+      | error e => simp [hs, ha] at h
+      | ok m1 =>
+        simp only [hs, ha] at h
+        obtain ⟨hm1, hn1⟩ := addPairs_spec old pairs m0 m1 ha hn
+        obtain ⟨i1, i2, i3, i4⟩ := split_expansion splitOf rest m1 m h hn1
+        refine ⟨i1, ?_, ?_, ?_⟩
+        · intro e he
+          rcases i2 e he with h1 | ⟨h1, h2⟩
+          · rw [hm1, List.mem_append] at h1
+            rcases h1 with h1 | h1
+            · exact .inl h1
+            · simp only [List.mem_map] at h1
+              obtain ⟨p, hp, rfl⟩ := h1
+              exact .inr ⟨List.mem_cons_self .., pairs, hs, hp⟩
+          · exact .inr ⟨List.mem_cons_of_mem _ h1, h2⟩
+        · intro e he
+          exact i3 e (by rw [hm1]; exact List.mem_append_left _ he)
+        · intro o ho ps hps p hp
+          cases ho with
+          | head =>
+            rw [hs] at hps; injection hps with hps; subst hps
+            apply i3
+            rw [hm1]
+            exact List.mem_append_right _ (List.mem_map.mpr ⟨p, hp, rfl⟩)
+          | tail _ ho => exact i4 o ho ps hps p hp
+
+/-- colliding new ids (between entries or within one entry) are an error -/
+theorem split_collision_rejected (old new : String) (part : Val) (rest : List (String × Val)) (m : List (String × String × Val))
+    (h : m.any (·.1 == new) = true) : addPairs old ((new, part) :: rest) m = .error .assertionError := by
+  simp [addPairs, h]
+
 /-- single-string keys are themselves; a non-string key is a `TypeError` -/
 theorem to_key_spec (s : String) (i : Int) :
     toKey [.str s] = .ok s ∧ toKey [.int i] = .error .typeError ∧ toKey [.app "f" [] [] []] = .error .typeError := by
